@@ -442,7 +442,7 @@ class C36(Check):
     id = "C36"
     level = "model_checking"
     rule = ("every combination of duplicate structure (multi), outcome in {result, exception, cancel}, "
-            "pre-done flag and completion order of up to N input futures (N=3 quick, 4 thorough) for "
+            "pre-done flag and completion order of up to N input futures (N=3 quick, 5 thorough) for "
             "gen.multi (list and dict), gen.WaitIterator (args/kwargs, consumer started after 0..n "
             "completions), gen.with_timeout (input before/after/at-start/never vs deadline; absolute "
             "and timedelta), concurrent.chain_future (b pending / done / cancelled before or between; "
@@ -457,7 +457,7 @@ class C36(Check):
                    "multi's 'Multiple exceptions' log is not an error"]
 
     def partitions(self, tier):
-        n = 3 if tier == "quick" else 4
+        n = 3 if tier == "quick" else 5
         parts = []
         for fam in FAMILIES:
             nslices = 16 if fam in ("multi", "wait_iter") else 1
